@@ -172,7 +172,7 @@ func HarnessC19Positions() {
 	want, wok := c19Compose(chain, AsValue(v))
 	verifAssume(wok)
 	e := c19Expr("v", chain)
-	pos := verifChoice(13)
+	pos := verifChoice(15)
 	verifObserve("pos", pos)
 	verifObserve("expr", e)
 	var src, exp string
@@ -189,6 +189,11 @@ func HarnessC19Positions() {
 		src, exp = "{% macro m(p) %}{{ p }}{% endmacro %}{{ m("+e+") }}", want
 	case 5:
 		src, exp = "{% macro m(p="+e+") %}{{ p }}{% endmacro %}{{ m() }}", want
+	case 13: // a default is evaluated where the macro is written, not among the macro's own parameters:
+		// an earlier parameter that happens to have the name the chain starts from does not capture it
+		src, exp = "{% macro m(v, p="+e+") %}{{ p }}{% endmacro %}{{ m(w) }}", want
+	case 14: // the same for a name in filter-argument position of a default
+		src, exp = "{% macro m(w, p=nothing|default:w) %}{{ p }}{% endmacro %}{{ m(\"Q\") }}", w
 	case 6: // filter parameter position: default:<name> uses the variable's value
 		src, exp = "{{ nothing|default:v }}", v
 	case 7: // argument evaluated in the current scope (inner binding wins)
